@@ -159,8 +159,8 @@ def needA : TypeArg → Nat
   | .ty t => 1 + needT t
 end
 
-/-- the token after a type: not white space and not `<` (which would continue a type application). -/
-def Follow (rest : Iter) : Prop := ∃ h r, rest = h :: r ∧ NW h ∧ h.ty ≠ T.lAngle
+/-- what follows a type: after optional white space a token that is not `<` (which would continue a type application). -/
+def Follow (rest : Iter) : Prop := ∃ h r, skipWS rest = .ok (h :: r) ∧ h.ty ≠ T.lAngle
 
 theorem identChar_not_dot (c : UInt8) (h : identChar c = true) : (c.toNat != 46) = true := by
   simp only [identChar, letter, lowerCase, upperCase, digit, Bool.or_eq_true, Bool.and_eq_true, decide_eq_true_eq,
@@ -295,7 +295,7 @@ theorem map_tk_append {toks : Iter} {a b : List TK} (h : toks.map Token.tk = a +
 
 theorem follow_of {h : Token} {r : Iter} (ty : Int) (hty : h.ty = ty)
     (hm : ty ∈ [T.rAngle, T.commaSign, T.rSquare]) : Follow (h :: r) := by
-  refine ⟨h, r, rfl, nw_of_ty ?_, ?_⟩
+  refine ⟨h, r, skipWS_nw (nw_of_ty ?_), ?_⟩
   · rw [hty]; simp only [List.mem_cons, List.not_mem_nil, or_false] at hm ⊢
     rcases hm with h | h | h <;> simp [h]
   · rw [hty]; simp only [List.mem_cons, List.not_mem_nil, or_false] at hm
@@ -307,11 +307,24 @@ theorem needT_pos (t : TypeRef) : 3 ≤ needT t := by
   | bracket i e => cases i <;> rw [needT] <;> omega
 
 
+theorem front_cons (t : Token) (r : Iter) : front (t :: r) = .ok t := rfl
+theorem popFront_cons (t : Token) (r : Iter) : popFront (t :: r) = .ok (t, r) := rfl
+
 theorem follow_ne {rest : Iter} (h : Follow rest) : rest ≠ [] := by
-  obtain ⟨h, r, rfl, _⟩ := h; simp
+  obtain ⟨h, r, hs, _⟩ := h
+  intro e; subst e; simp [skipWS] at hs
 
 theorem front_follow {rest : Iter} (h : Follow rest) : ∃ t, front rest = .ok t := by
-  obtain ⟨h, r, rfl, _⟩ := h; exact ⟨h, rfl⟩
+  have := follow_ne h
+  cases rest with
+  | nil => exact absurd rfl this
+  | cons t r => exact ⟨t, rfl⟩
+
+theorem expectLazy_follow {rest : Iter} (h : Follow rest) : expectLazy rest T.lAngle = .ok (false, rest) := by
+  obtain ⟨h, r, hs, hne⟩ := h
+  have : (h.ty == T.lAngle) = false := by simpa using hne
+  simp only [expectLazy, expect, checkToken, checkAny, hs, Res.ok_bind, front_cons, Res.pure_eq, List.contains_cons,
+    List.contains_nil, Bool.or_false, this, Bool.false_eq_true, ↓reduceIte]
 
 theorem nameTok_facts {t : Token} {n : TName} (h : [t].map Token.tk = tnameToks n) :
     NW t ∧ (t.ty == T.lAngle) = false := by
@@ -327,9 +340,6 @@ theorem nameTok_facts {t : Token} {n : TName} (h : [t].map Token.tk = tnameToks 
     rcases identNSTy_mem n.name with e | e
     · exact ⟨nw_of_ty (by simp [hty, e]), by rw [hty, e]; decide⟩
     · exact ⟨nw_of_ty (by simp [hty, e]), by rw [hty, e]; decide⟩
-
-theorem front_cons (t : Token) (r : Iter) : front (t :: r) = .ok t := rfl
-theorem popFront_cons (t : Token) (r : Iter) : popFront (t :: r) = .ok (t, r) := rfl
 
 theorem expectProgress_ok (e : PErr) : (({ start := true } : OState).expectProgress e) = (true, { start := true }) := rfl
 
@@ -366,17 +376,16 @@ theorem type_rt : (t : TypeRef) → t.wf = true → ∀ (toks rest : Iter) (pos 
     have : ts = [] := by simpa using hts
     subst this
     obtain ⟨hnw, _⟩ := nameTok_facts hm
-    obtain ⟨h, r, rfl, hnwh, hla⟩ := hfol
-    have hla' : (h.ty == T.lAngle) = false := by simpa using hla
+    obtain ⟨t0, ht0⟩ := front_follow hfol
     simp only [needT, needArgs] at hf
     obtain ⟨f, rfl⟩ : ∃ f, fuel = f + 2 := ⟨fuel - 2, by omega⟩
     rw [show f + 2 = (f + 1) + 1 from rfl, parseType]
     simp only [List.singleton_append, skipWS_nw hnw, Res.ok_bind]
     rw [parseApp]
     simp only [skipWS_nw hnw, Res.ok_bind]
-    rw [show nt :: h :: r = [nt] ++ h :: r from rfl, parseTypeName_rt name hwf [nt] (h :: r) pos hm]
+    rw [show nt :: rest = [nt] ++ rest from rfl, parseTypeName_rt name hwf [nt] rest pos hm]
     simp only [Res.ok_bind, OState.hasProgress, Option.isNone, Bool.and_self, Bool.not_true, Bool.false_eq_true,
-      ↓reduceIte, front_cons, expectLazy_nw hnwh, hla', Res.pure_eq]
+      ↓reduceIte, ht0, expectLazy_follow hfol, Res.pure_eq]
   | .app name (a :: as), hwf, toks, rest, pos, fuel, hm, hf, hfol => by
     simp only [TypeRef.wf, argsWf, Bool.and_eq_true] at hwf
     obtain ⟨k, hk⟩ := tnameToks_single name
@@ -402,7 +411,8 @@ theorem type_rt : (t : TypeRef) → t.wf = true → ∀ (toks rest : Iter) (pos 
     simp only [needT, needArgs] at hf
     obtain ⟨f, rfl⟩ : ∃ f, fuel = f + 3 := ⟨fuel - 3, by omega⟩
     have hrest := follow_ne hfol
-    obtain ⟨h2, r2, hr2, hh2, hh3⟩ := hfol2
+    obtain ⟨h2, r2, hr2, hh3⟩ := hfol2
+    obtain ⟨t2, ht2⟩ := front_follow ⟨h2, r2, hr2, hh3⟩
     rw [show f + 3 = (f + 2) + 1 from rfl, parseType]
     simp only [List.cons_append, skipWS_nw hnw, Res.ok_bind]
     rw [show f + 2 = (f + 1) + 1 from rfl, parseApp]
@@ -411,9 +421,9 @@ theorem type_rt : (t : TypeRef) → t.wf = true → ∀ (toks rest : Iter) (pos 
       parseTypeName_rt name hwf.1 [nt] _ pos hntm]
     simp only [Res.ok_bind, OState.hasProgress, Option.isNone, Bool.and_self, Bool.not_true, Bool.false_eq_true,
       ↓reduceIte, front_cons, expectLazy_nw hnwla, hlaty, BEq.rfl, Res.pure_eq]
-    rw [List.append_assoc, arg_rt a hwf.2.1 ta (tb ++ rest) pos (f + 1) hta (by omega) ⟨h2, r2, hr2, hh2, hh3⟩]
-    simp only [Res.ok_bind, hr2, front_cons, expectProgress_ok, Bool.not_true, Bool.false_eq_true, ↓reduceIte]
-    rw [← hr2, argsTail_rt as hwf.2.2 tb rest pos (f + 1) _ [a] htb (by omega) hrest]
+    rw [List.append_assoc, arg_rt a hwf.2.1 ta (tb ++ rest) pos (f + 1) hta (by omega) ⟨h2, r2, hr2, hh3⟩]
+    simp only [Res.ok_bind, ht2, expectProgress_ok, Bool.not_true, Bool.false_eq_true, ↓reduceIte]
+    rw [argsTail_rt as hwf.2.2 tb rest pos (f + 1) _ [a] htb (by omega) hrest]
     simp only [Res.ok_bind, Res.pure_eq, List.singleton_append]
     obtain ⟨t0, ht0⟩ := front_follow hfol
     simp only [ht0, Res.ok_bind, Res.pure_eq, Bool.not_true, Bool.false_eq_true, ↓reduceIte]
@@ -517,12 +527,13 @@ theorem argsTail_rt : (as : List TypeArg) → argsWf as = true → ∀ (toks res
         exact follow_of T.commaSign (congrArg Prod.fst hcm2) (by simp)
     simp only [needArgs] at hf
     obtain ⟨f, rfl⟩ : ∃ f, fuel = f + 1 := ⟨fuel - 1, by omega⟩
-    obtain ⟨h2, r2, hr2, hh2, hh3⟩ := hfol2
+    obtain ⟨h2, r2, hr2, hh3⟩ := hfol2
+    obtain ⟨t2, ht2⟩ := front_follow ⟨h2, r2, hr2, hh3⟩
     rw [parseArgsLoop]
     simp only [List.cons_append, expect_nw hnw, hcmty, BEq.rfl, ↓reduceIte, Res.ok_bind]
-    rw [List.append_assoc, arg_rt a hwf.1 ta (tb ++ rest) pos f hta (by omega) ⟨h2, r2, hr2, hh2, hh3⟩]
-    simp only [Res.ok_bind, hr2, front_cons, expectProgress_ok, Bool.not_true, Bool.false_eq_true, ↓reduceIte]
-    rw [← hr2, argsTail_rt as hwf.2 tb rest pos f st (acc ++ [a]) htb (by omega) hrest]
+    rw [List.append_assoc, arg_rt a hwf.1 ta (tb ++ rest) pos f hta (by omega) ⟨h2, r2, hr2, hh3⟩]
+    simp only [Res.ok_bind, ht2, expectProgress_ok, Bool.not_true, Bool.false_eq_true, ↓reduceIte]
+    rw [argsTail_rt as hwf.2 tb rest pos f st (acc ++ [a]) htb (by omega) hrest]
     simp
 
 /-- `parseTL2TypeArgument` -/
